@@ -269,6 +269,60 @@ def run_errors(ctx, spec):
                     ctx.violate("suppression-changes-errors", "errors / exit status differ with and without suppression: %r" % (outs,), replay)
 
 
+def fill_raw(template, raw):
+    """Like fill(), but each slot holds the given raw text."""
+    values = {s: "" for s in ["file", "other", "elem", "encl", "encl2", "sib", "sib2", "depdef"]}
+    values.update(raw)
+    return [template["text"].format(**values)] + [x.format(**values) for x in template["extra"]]
+
+
+ATTRIBUTE_ERRORS = [("[deprecated] ", "[deprecated] "), ("[deprecated(\"a\")] ", "[deprecated(\"b\")] "), ("[nope] ", ""), ("[allow(NoSuchLint)] ", ""),
+                    ("[oneway(x)] ", ""), ("[compress(Args)] ", "[compress(Return)] "), ("[deprecated] ", "[x::y] [deprecated] ")]
+
+
+def run_errors_at_element(ctx, spec):
+    """Errors that sit on the very element that carries the suppression (a repeated, unknown or malformed attribute next to the
+    allow, before it, after it, around it): the same errors with and without the allow attribute (library, all diagnostics)."""
+    _, idx, n = spec
+    cases = []
+    for ti, tpl in enumerate(T):
+        if ti % n != idx:
+            continue
+        for slot in tpl["in"]:
+            for arg in ("All", tpl["lint"]):
+                allow = "[allow(%s)] " % arg
+                for e1, e2 in ATTRIBUTE_ERRORS:
+                    for order, (with_, without) in (("allow-first", (allow + e1 + e2, e1 + e2)), ("allow-between", (e1 + allow + e2, e1 + e2)),
+                                                     ("allow-last", (e1 + e2 + allow, e1 + e2))):
+                        cases.append((tpl, slot, arg, order, e1 + e2, fill_raw(tpl, {slot: with_}), fill_raw(tpl, {slot: without})))
+    reqs = []
+    for c_ in cases:
+        reqs.append({"op": "compile", "files": c_[5], "want": ["diags"]})
+        reqs.append({"op": "compile", "files": c_[6], "want": ["diags"]})
+    resps = ctx.worker.batch(reqs)
+    for i, (tpl, slot, arg, order, errattrs, with_, without) in enumerate(cases):
+        a, b = resps[2 * i], resps[2 * i + 1]
+        ctx.note_case(("err-at", tpl["name"], slot, arg, order, errattrs))
+        ctx.stats["errors_at_element_cases"] += 1
+        replay = {"kind": "library", "call": "compile_from_strings + into_diagnostics", "files": with_, "files_without_suppression": without,
+                  "template": tpl["name"], "slot": slot, "argument": arg, "order": order}
+        if any("died" in r or r.get("panic") for r in (a, b)):
+            p = a.get("panic") or b.get("panic") or {"message": "worker died", "location": "?"}
+            ctx.violate(core.panic_signature(p), "crashed: %s" % p, replay)
+            continue
+        ea = sorted((d["code"], d["message"]) for d in a["diags"] if d["level"] == "error")
+        eb = sorted((d["code"], d["message"]) for d in b["diags"] if d["level"] == "error")
+        replay["errors_with"] = ea[:5]
+        replay["errors_without"] = eb[:5]
+        if not eb:
+            ctx.stats["errors_at_element_no_error_in_twin"] += 1     # that attribute is legal there: nothing to compare
+            continue
+        ctx.stats["errors_at_element_compared"] += 1
+        if ea != eb:
+            ctx.violate("suppression-changes-errors:at-element/" + order, "the allow attribute (%s, %s) changes the errors on its own element: "
+                        "%r with it, %r without" % (arg, order, [e[0] for e in ea], [e[0] for e in eb]), replay)
+
+
 def run_request(ctx, spec):
     """The generator request with and without a suppression differs only in the attribute."""
     _, idx, n = spec
@@ -589,13 +643,13 @@ def judge_random(ctx, prog, lints, cmdline, texts, r):
 
 
 def run_shard(ctx, spec):
-    {"templates": run_templates, "random": run_random, "errors": run_errors, "request": run_request, "dupfile": run_dupfile}[spec[0]](ctx, spec)
+    {"templates": run_templates, "random": run_random, "errors-at-element": run_errors_at_element, "errors": run_errors, "request": run_request, "dupfile": run_dupfile}[spec[0]](ctx, spec)
 
 
 def plan(tier, seed):
     n = 3000 if tier == "quick" else 60000
     return ([("templates", i, 8) for i in range(8)] + [("errors", i, 8) for i in range(8)] + [("request", i, 8) for i in range(8)] + [("dupfile",)]
-            + [("random", n // 16, i) for i in range(16)])
+            + [("random", n // 16, i) for i in range(16)] + [("errors-at-element", i, 8) for i in range(8)])
 
 
 def main(tier, seed):
@@ -618,7 +672,7 @@ def main(tier, seed):
               "distinct_nontrivial = distinct (template, placement, argument) + distinct random programs" % len(T)),
         required={"template_cases": 2000, "expected_silenced": 1000, "expected_reported": 400, "error_cases": 100, "request_pairs": 50,
                   "duplicate_file_cases": 10,
-                  "random_programs": 2000, "random_lints_judged": 10000, "random_expected_silenced": 3000, "random_expected_reported": 3000},
+                  "errors_at_element_compared": 1000, "random_programs": 2000, "random_lints_judged": 10000, "random_expected_silenced": 3000, "random_expected_reported": 3000},
         assumptions=["which -A spellings are accepted is taken from the command-line parser itself; an accepted value must be effective",
                      "the element a Deprecated lint concerns is the member / alias / interface / enum holding the reference",
                      "DuplicateFile can only be suppressed from the command line (covered by C14's binary family)"],
